@@ -52,10 +52,10 @@ Proof. intros (H1 & H2 & (H3 & H3') & H4). unfold udp_pre, udp_broadcast, eth_wf
 Lemma udp_push_inv d b d' :
   udp_pre d -> 28 + len (ud_payload d) + len b < 65536 -> udp_push d b = Ok d' -> udp_inv d'.
 Proof.
-  intros (H1 & H2 & H3 & H4) Hfit. unfold udp_push, cadd, two16, wrap16.
+  intros (H1 & H2 & H3 & H4) Hfit. unfold udp_push, wrap16.
   rewrite (N.mod_small (len b)) by lia.
-  destruct (ip_tot_len (ud_ip d) + len b <? 65536) eqn:E1; cbn [obind]; [|discriminate].
-  destruct (uh_len (ud_udp d) + len b <? 65536) eqn:E2; cbn [obind]; [|discriminate].
+  rewrite (N.mod_small (ip_tot_len (ud_ip d) + len b)) by lia.
+  rewrite (N.mod_small (uh_len (ud_udp d) + len b)) by lia.
   intros E; ok_inv E. unfold udp_inv. cbn [ud_ip ud_payload ud_eth ud_udp uh_len].
   split; [|split; [|split]].
   - apply ip_fresh_calc, ip_set_tot_len_wf; [exact H1|lia].
@@ -99,8 +99,7 @@ Proof. repeat split. Qed.
 
 Lemma udp_push_fields d b d' : udp_push d b = Ok d' -> ud_raw d' = ud_raw d /\ ud_payload d' = ud_payload d ++ b.
 Proof.
-  unfold udp_push. destruct (cadd _ _ _ _); cbn [obind]; try discriminate.
-  destruct (cadd _ _ _ _); cbn [obind]; try discriminate. intros E. apply Ok_inj in E. subst d'. split; reflexivity.
+  unfold udp_push. intros E. apply Ok_inj in E. subst d'. split; reflexivity.
 Qed.
 
 Lemma udp_addressed_payload raw s t : ud_payload (udp_dst (udp_src (udp_new raw) s) t) = [] /\ ud_raw (udp_dst (udp_src (udp_new raw) s) t) = raw.
@@ -154,10 +153,10 @@ Theorem icmp_dgram_ip_ok src dst raw typ id seq b p :
   src < 4294967296 -> dst < 4294967296 -> 28 + len b < 65536 ->
   icmp_dgram src dst raw typ id seq b = Ok p -> frame_ip_ok raw p.
 Proof.
-  intros Hs Hd Hb. unfold icmp_dgram, cadd, two16, wrap16.
+  intros Hs Hd Hb. unfold icmp_dgram, wrap16.
   rewrite ip_tot_len_calc. cbn [ip_tot_len ip_set_daddr ip_set_saddr ip_set_tot_len].
   rewrite (N.mod_small (len b)) by lia.
-  destruct (28 + len b <? 65536) eqn:E; cbn [obind]; [|discriminate].
+  rewrite (N.mod_small (28 + len b)) by lia.
   intros E'; ok_inv E'.
   unfold frame_ip_ok, pkt_of_body. cbn [pk_body].
   rewrite l3_of_framed by reflexivity.
@@ -174,9 +173,9 @@ Theorem ipdgram_ip_ok iph payload raw off mf p :
   ip_wf iph -> off < 65536 -> 20 + len payload < 65536 ->
   ipdgram iph payload raw off mf = Ok p -> frame_ip_ok raw p.
 Proof.
-  intros Hw Ho Hfit. unfold ipdgram, cadd, two16, wrap16.
+  intros Hw Ho Hfit. unfold ipdgram, wrap16.
   rewrite (N.mod_small (len payload)) by lia.
-  destruct (len payload + 20 <? 65536) eqn:E; cbn [obind]; [|discriminate].
+  rewrite (N.mod_small (len payload + 20)) by lia.
   intros E'; ok_inv E'.
   unfold frame_ip_ok, pkt_of_body. cbn [pk_body].
   rewrite l3_of_framed by reflexivity.
@@ -223,8 +222,8 @@ Proof.
   { apply ip_calc_csum_wf, ip_set_daddr_wf; [|exact Hd]. apply ip_set_saddr_wf; [|exact Hs].
     apply ip_set_tot_len_wf; [|lia]. apply ip_set_protocol_wf; [apply ip_default_wf|unfold PROTO_GRE; lia]. }
   destruct (negb (N.land (gre_flags_word flags) 4096 =? 0)).
-  - unfold cadd, two16. rewrite ip_tot_len_calc. cbn [ip_tot_len ip_set_daddr ip_set_saddr ip_set_tot_len].
-    cbn [obind N.ltb]. change (24 + 4 <? 65536) with true. cbn [obind].
+  - rewrite ip_tot_len_calc. cbn [ip_tot_len ip_set_daddr ip_set_saddr ip_set_tot_len].
+    change (wrap16 (24 + 4)) with 28.
     intros E; ok_inv E. unfold gre_pre, gre_extra. cbn [gr_ip gr_hdr gr_seq gr_rest gr_eth gr_raw].
     refine (conj (conj _ (conj eq_refl eq_refl)) eq_refl).
     apply ip_set_tot_len_wf; [exact W|lia].
@@ -241,9 +240,9 @@ Qed.
 Lemma gre_push_inv g b g' :
   gre_pre g -> 20 + len (gre_extra g) + len b < 65536 -> gre_push g b = Ok g' -> gre_inv g' /\ gr_raw g' = gr_raw g.
 Proof.
-  intros (H1 & H2 & H3) Hfit. unfold gre_push, cadd, two16, wrap16.
+  intros (H1 & H2 & H3) Hfit. unfold gre_push, wrap16.
   rewrite (N.mod_small (len b)) by lia.
-  destruct (ip_tot_len (gr_ip g) + len b <? 65536) eqn:E; cbn [obind]; [|discriminate].
+  rewrite (N.mod_small (ip_tot_len (gr_ip g) + len b)) by lia.
   intros E'; ok_inv E'. unfold gre_inv, gre_extra in *. cbn [gr_ip gr_hdr gr_seq gr_rest gr_eth gr_raw].
   refine (conj (conj _ (conj _ H3)) eq_refl).
   - apply ip_fresh_calc, ip_set_tot_len_wf; [exact H1|lia].
@@ -263,7 +262,7 @@ Lemma gre_extra_len_new src dst flags proto raw g :
   gre_new src dst flags proto raw = Ok g -> len (gre_extra g) <= 8.
 Proof.
   unfold gre_new. destruct (negb _).
-  - destruct (cadd _ _ _ _); cbn [obind]; try discriminate. intros E; ok_inv E. unfold gre_extra. cbn [gr_hdr gr_seq gr_rest]. rewrite !len_app. cbn. lia.
+  - intros E; ok_inv E. unfold gre_extra. cbn [gr_hdr gr_seq gr_rest]. rewrite !len_app. cbn. lia.
   - intros E; ok_inv E. unfold gre_extra. cbn [gr_hdr gr_seq gr_rest]. rewrite !len_app. cbn. lia.
 Qed.
 
@@ -273,7 +272,6 @@ Theorem gre_flow_encap_ip_ok f b f' p :
 Proof.
   intros Hc Hs Hfit. unfold gre_flow_encap.
   destruct (gre_new _ _ _ _ _) as [g| | |] eqn:E0; cbn [obind]; try discriminate.
-  destruct (cadd _ _ _ _) as [n| | |]; cbn [obind]; try discriminate.
   destruct (gre_push _ b) as [g'| | |] eqn:E1; cbn [obind]; try discriminate.
   intros E; ok_inv E.
   destruct (gre_new_pre _ _ _ _ _ _ Hc Hs E0) as (P0 & R0).
@@ -304,7 +302,6 @@ Theorem erspan2_encap_ip_ok f b ix f' p :
   erspan2_encap f b ix = Ok (f', p) -> frame_ip_ok (e2_raw f) p.
 Proof.
   intros Hc Hs Hfit. unfold erspan2_encap.
-  destruct (cadd _ _ _ _) as [n| | |]; cbn [obind]; try discriminate.
   destruct (gre_new _ _ _ _ _) as [g| | |] eqn:E0; cbn [obind]; try discriminate.
   destruct (gre_push _ (erspan2_ser _ _)) as [g1| | |] eqn:E1; cbn [obind]; try discriminate.
   destruct (gre_push g1 b) as [g2| | |] eqn:E2; cbn [obind]; try discriminate.
@@ -316,7 +313,7 @@ Proof.
   destruct (gre_push_inv (gre_set_seq g (e2_seq f)) (erspan2_ser (e2_sess f) ix) g1 (gre_set_seq_pre _ _ P0)) as (I1 & R1); [|exact E1|].
   { change (len (erspan2_ser (e2_sess f) ix)) with 8. lia. }
   assert (L1 : len (gre_extra g1) = len (gre_extra g) + 8).
-  { unfold gre_push in E1. destruct (cadd _ _ _ _); cbn [obind] in E1; try discriminate. apply Ok_inj in E1. subst g1.
+  { unfold gre_push in E1. apply Ok_inj in E1. subst g1.
     unfold gre_extra, gre_set_seq. cbn [gr_hdr gr_seq gr_rest].
     assert (B : forall x, len (be32 x) = 4) by reflexivity.
     destruct (gr_seq g); rewrite !len_app, ?B; change (len (erspan2_ser (e2_sess f) ix)) with 8; change (len (@nil N)) with 0; lia. }
